@@ -3,8 +3,13 @@
 (* Validation of what the real ntske.Provider returned under a virtual     *)
 (* clock (harness/c12) against KeyProvider.tla.  The trace is a sequence   *)
 (* of behaviours, each starting with a "reset" record (NewProvider) and    *)
-(* followed by "adv" (clock step), "cur" and "get" records in seconds      *)
-(* since NewProvider; l' = l + 1.                                          *)
+(* followed by "adv" (clock step), "cur", "get" and "open" records in      *)
+(* seconds since NewProvider; l' = l + 1.  A "cur" record carries in cid   *)
+(* the identifier read back (Decode) from the cookie the driver sealed     *)
+(* under the returned key through the servers' path (EncryptWithNonce,     *)
+(* Encode); an "open" record is that cookie presented again the way the    *)
+(* listeners do (Decode, Get(int(ID)), Decrypt, compare the plaintext).    *)
+(* The reset record names the class of the scripted rand.Reader (draw).    *)
 (*   monitor (KeyProviderTrace_mon.cfg): now, ret and the histories issued *)
 (*     / seen are bound to the recorded projection and the property        *)
 (*     section of KeyProvider.tla is evaluated as is on every recorded     *)
@@ -21,23 +26,25 @@ EXTENDS Integers, Sequences, FiniteSets, TLC, Json
 Day == 86400          \* trace unit: one second
 Gaps == {}
 Horizon == 2000000000
-VARIABLES now, keys, currentID, generatedAt, ret, issued, seen,
+VARIABLES now, keys, currentID, generatedAt, ret, issued, seen, cookies, draw,
           l,     \* position in the trace
           cph,   \* phase of the record at l
-          pend   \* issues of phase cph (monitor only)
+          pend,  \* issues of phase cph (monitor only)
+          pendc  \* cookies issued in phase cph (monitor only)
 INSTANCE KeyProvider
 
 Trace == ndJsonDeserialize("trace.ndjson")
 N == Len(Trace)
-tvars == <<now, keys, currentID, generatedAt, ret, issued, seen, l, cph, pend>>
+tvars == <<now, keys, currentID, generatedAt, ret, issued, seen, cookies, draw, l, cph, pend, pendc>>
 
-IsCall(e) == e.op \in {"cur", "get"}
+IsCall(e) == e.op \in {"cur", "get", "open"}
 Proj(e) == [op |-> e.op, arg |-> e.arg, t |-> e.t, ok |-> e.ok,
-            id |-> e.id, nb |-> e.nb, na |-> e.na, val |-> e.val]
+            id |-> e.id, nb |-> e.nb, na |-> e.na, val |-> e.val, cid |-> e.cid]
 Merge(f, g) == [i \in DOMAIN f \cup DOMAIN g |-> IF i \in DOMAIN g THEN g[i] ELSE f[i]]
 
 TInit ==
-  /\ l = 0 /\ cph = 0 /\ pend = << >>
+  /\ l = 0 /\ cph = 0 /\ pend = << >> /\ pendc = << >>
+  /\ cookies = << >> /\ draw = "real"
   /\ now = 0 /\ ret = NoRet /\ issued = << >> /\ seen = {}
   /\ keys = << >> /\ currentID = 0 /\ generatedAt = 0
 
@@ -47,23 +54,29 @@ MonNext ==
   /\ UNCHANGED <<keys, currentID, generatedAt>>
   /\ LET e == Trace[l'] IN
      IF e.op = "reset"
-     THEN now' = 0 /\ ret' = NoRet /\ issued' = << >> /\ seen' = {} /\ cph' = 0 /\ pend' = << >>
+     THEN /\ now' = 0 /\ ret' = NoRet /\ issued' = << >> /\ seen' = {} /\ cph' = 0 /\ pend' = << >>
+          /\ cookies' = << >> /\ pendc' = << >> /\ draw' = e.draw
      ELSE LET newph == e.ph # cph
               pend0 == IF newph THEN << >> ELSE pend
+              pendc0 == IF newph THEN << >> ELSE pendc
           IN /\ now' = e.t
+             /\ draw' = draw
+             /\ cookies' = IF newph THEN Merge(cookies, pendc) ELSE cookies
              /\ cph' = e.ph
              /\ issued' = IF newph THEN Merge(issued, pend) ELSE issued
              /\ IF IsCall(e) /\ e.exact
                 THEN /\ ret' = Proj(e)
                      /\ seen' = SeenAfter(seen, ret')
                      /\ pend' = IssuedAfter(pend0, ret')
+                     /\ pendc' = CookiesAfter(pendc0, ret')
                 ELSE /\ ret' = NoRet      \* clock step, or instants that are not whole seconds (see RRaw)
                      /\ seen' = seen
                      /\ pend' = pend0
+                     /\ pendc' = pendc0
 MonSpec == TInit /\ [][MonNext]_tvars
 
 \* the property section of KeyProvider.tla (CurrentValid, CurrentFresh,
-\* GetOnlyValid, IdsUnique, CookieLifetime) is listed in the cfg as is; plus
+\* GetOnlyValid, IdsUnique, CookieLifetime, CookieUsable) is listed in the cfg as is; plus
 \* the same per-call inequalities evaluated by the driver on the raw time.Time
 \* values (guards the conversion to seconds), and: Current() returned at all
 RRaw == l > 0 => Trace[l].raw_ok
@@ -71,16 +84,18 @@ RRaw == l > 0 => Trace[l].raw_ok
 \* -------------------------------------------------------------- strict
 StrNext ==
   /\ l < N /\ l' = l + 1
-  /\ pend' = pend
+  /\ pend' = pend /\ pendc' = pendc
   /\ LET e == Trace[l'] IN
      /\ cph' = e.ph
      /\ CASE e.op = "reset" ->
                /\ now' = 0 /\ currentID' = 1 /\ generatedAt' = 0
                /\ keys' = [i \in {1} |-> NewKey(0, 1)]
                /\ ret' = NoRet /\ issued' = << >> /\ seen' = {}
+               /\ cookies' = << >> /\ draw' = e.draw
           [] e.op = "adv" -> Advance(e.d)
           [] e.op = "cur" -> Current
           [] e.op = "get" -> Get(e.arg)
+          [] e.op = "open" -> Open(e.arg)
 StrSpec == TInit /\ [][StrNext]_tvars
 
 Judged == l > 0 /\ IsCall(Trace[l]) /\ Trace[l].exact
@@ -88,11 +103,13 @@ Judged == l > 0 /\ IsCall(Trace[l]) /\ Trace[l].exact
 SExplained == Judged =>
   LET e == Trace[l] IN
     /\ ret.op = e.op /\ ret.arg = e.arg /\ ret.t = e.t /\ ret.ok = e.ok
-    /\ ret.id = e.id /\ ret.nb = e.nb /\ ret.na = e.na
+    /\ ret.id = e.id /\ ret.nb = e.nb /\ ret.na = e.na /\ ret.cid = e.cid
 STime == (l > 0 /\ Trace[l].exact) => now = Trace[l].t
 \* ... and it is what the generating TLC run printed for this event
 SExpected == (Judged /\ Trace[l].hasx) =>
   LET e == Trace[l] IN
     e.ok = e.xok /\ e.id = e.xid /\ e.nb = e.xnb /\ e.na = e.xna
 SCurrentPresent == l > 0 => CurrentPresent
+\* the scripted class of the randomness source is one the specification generates
+SDraw == draw \in Draws
 =============================================================================
